@@ -8,6 +8,8 @@ tier=${1:-quick}
 shard=${2:-0}; nshards=${3:-1}; k=-1
 for d in /verif/seeded/*/; do
   name=$(basename "$d")
+  # SEED_FILTER: a regular expression on the seed's name (e.g. '^C0[36]') to re-run part of the regression
+  if [ -n "${SEED_FILTER:-}" ] && ! echo "$name" | grep -Eq "$SEED_FILTER"; then continue; fi
   k=$((k+1)); [ $((k % nshards)) -ne "$shard" ] && continue
   prop=$(/venv/bin/python -c "import json,sys; m=json.load(open('$d/meta.json')); print(m.get('caught_by') or m['property'])" 2>/dev/null | tail -1)
   out=$(LINES_OUT=400 /verif/tools/try_seed.sh "$prop" "$d/patch.diff" "$tier" 2>&1)
